@@ -38,7 +38,8 @@ type Server struct {
 	NetInterface string
 	Port         int
 
-	rateLimiters map[string]*rate.Limiter
+	rateLimiters   map[string]*rate.Limiter
+	rateLimitersMu sync.Mutex // guards rateLimiters: every accepted connection runs in its own goroutine
 
 	handlers map[TranType]HandlerFunc
 
@@ -241,11 +242,7 @@ func (s *Server) Serve(ctx context.Context, ln net.Listener) error {
 				defer conn.Close()
 
 				// Check if we have an existing rate limit for the IP and create one if we do not.
-				rl, ok := s.rateLimiters[ipAddr]
-				if !ok {
-					rl = rate.NewLimiter(perIPRateLimit, 1)
-					s.rateLimiters[ipAddr] = rl
-				}
+				rl := s.rateLimiterFor(ipAddr)
 
 				// Check if the rate limit is exceeded and close the connection if so.
 				if !rl.Allow() {
@@ -264,6 +261,20 @@ func (s *Server) Serve(ctx context.Context, ln net.Listener) error {
 			}()
 		}
 	}
+}
+
+// rateLimiterFor returns the rate limiter of an IP address, creating it on first use.
+func (s *Server) rateLimiterFor(ipAddr string) *rate.Limiter {
+	s.rateLimitersMu.Lock()
+	defer s.rateLimitersMu.Unlock()
+
+	rl, ok := s.rateLimiters[ipAddr]
+	if !ok {
+		rl = rate.NewLimiter(perIPRateLimit, 1)
+		s.rateLimiters[ipAddr] = rl
+	}
+
+	return rl
 }
 
 // time in seconds between tracker re-registration
